@@ -1198,9 +1198,9 @@ func main() {
 		if f.Thorough() {
 			ownMs = 6000
 		}
-		nFresh := 150
+		nFresh := 400
 		if f.Thorough() {
-			nFresh = 1200
+			nFresh = 2500
 		}
 		rounds = append(rounds,
 			roundCfg{backend: "sql", store: "ord", g: 5, m: 2, sched: "write-during-mutate"},
@@ -1208,6 +1208,10 @@ func main() {
 			roundCfg{backend: "sql", store: "ord", g: 2, m: 8, sched: "retry-merge"},
 			roundCfg{backend: "sql", store: "uno", g: 3, m: nFresh, sched: "first-appends"},
 			roundCfg{backend: "sql", store: "ord", g: 2, m: nFresh, sched: "first-appends"},
+			roundCfg{backend: "sql", store: "ord", g: 4, m: nFresh, sched: "first-appends"},
+			roundCfg{backend: "sql", store: "uno", g: 2, m: nFresh, sched: "first-appends", seed: 1},
+			roundCfg{backend: "sql", store: "uno", g: 6, m: nFresh, sched: "first-appends"},
+			roundCfg{backend: "sql", store: "ord", g: 3, m: nFresh, sched: "first-appends", seed: 2},
 			roundCfg{backend: "mem", store: "ord", g: 8, m: nFresh * 4, sched: "first-appends"})
 		rounds = append(rounds, roundCfg{backend: "mem", store: "ord", g: 8, m: ownMs, sched: "own-keys"},
 			roundCfg{backend: "sql", store: "uno", g: 8, m: ownMs * 2, sched: "own-keys"})
